@@ -3,7 +3,8 @@ import json, os, re
 from driver import Q, VERIF, REPO
 
 ICU = ["stubs/icu_str.c"]
-ICU_LIBS = ["-licuio", "-licui18n", "-licuuc", "-licudata"]
+ICU_LIBS = ["-licuio", "-licui18n", "-licuuc", "-licudata", "-lsqlite3"]
+NATIVE_ICU = []   # native replays link the real ICU instead of stubs/icu_str.c
 META = {}
 
 
@@ -38,7 +39,29 @@ META["C20"] = {"files": ["cif.c", "cif.h"], "functions": ["cif_errlist (table)",
                                             "pertinence of a message is judged by the loose keyword oracle oracles/errlist_keywords.json"],
                "outside": ["whether library functions return the right code (other properties)"]}
 
-REG = {"C20": c20}
+
+# ------------------------------------------------------------------------------------------ C10
+def c10(tier):
+    K = 9 if tier == "quick" else 12
+    qs = []
+    for mode in ("func", "safety"):
+        qs.append(Q("C10_lex_K%d_%s" % (K, mode), "h10_lex.c", defs={"KLEN": K}, extra=ICU, unwind=K + 2, mode=mode,
+                    replay_libs=ICU_LIBS, native_extra=NATIVE_ICU, kf=["NUMB_EXP_OVERFLOW"],
+                    bounds={"string length": "<= %d code units, full 16-bit alphabet" % K},
+                    note="cif_value_parse_numb vs reference grammar parser"))
+    for ed in ((10,) if tier == "quick" else (10, 11)):
+        qs.append(Q("C10_lex_exp%d_safety" % ed, "h10_lex.c", defs={"KLEN": ed + 3, "STRUCT_EXP": None, "EXPD": ed}, extra=ICU,
+                    unwind=ed + 5, mode="safety", replay_libs=ICU_LIBS, native_extra=NATIVE_ICU, kf=["NUMB_EXP_OVERFLOW"],
+                    bounds={"input": "D [eE] [+-]? D{%d}" % ed}, note="structured query: long exponents"))
+    return qs
+
+
+META["C10"] = {"files": ["value.c"], "functions": ["cif_value_parse_numb"], "stubs": ["stubs/icu_str.c (exact ICU string helpers)"],
+               "assumptions": ["malloc does not fail (allocation failure is C17)"],
+               "outside": ["strings longer than the bound", "correct rounding of to_double/to_digits unless listed in queries",
+                           "cif_value_autoinit_numb (libc sprintf/strtol)"]}
+
+REG = {"C20": c20, "C10": c10}
 
 
 def for_property(pid, tier):
